@@ -821,9 +821,14 @@ func c11Plumbing(p *Prog, r *Report, rule string) {
 		if nm := fi.Decl.Type.Params.List[0].Names; len(nm) > 0 {
 			ctxParam = info.Defs[nm[0]]
 		}
+		// in the method itself or in a helper of the package that is handed the method's context
+		getsID := p.newMustUse("GetTxId(ctx)", func(hfi *FuncInfo, c *ast.CallExpr, match func(ast.Expr) bool) bool {
+			return p.callIs(hfi.Pkg, c, "internal/model.GetTxId") && len(c.Args) == 1 && match(c.Args[0])
+		})
+		getsID.may = true
 		ok := false
 		ast.Inspect(fi.Decl.Body, func(x ast.Node) bool {
-			if c, isC := x.(*ast.CallExpr); isC && p.callIs(fi.Pkg, c, "internal/model.GetTxId") && len(c.Args) == 1 && objOf(info, c.Args[0]) == ctxParam {
+			if c, isC := x.(*ast.CallExpr); isC && getsID.CallUses(fi, c, func(e ast.Expr) bool { return objOf(info, e) == ctxParam }) {
 				ok = true
 			}
 			return true
@@ -915,7 +920,7 @@ func c11ClientFlows(p *Prog, r *Report) {
 			}
 		}
 	}
-	r.Floor("C11.d", "grpc-error-sources-in-external-client", nSources, 14)
+	r.Floor("C11.d", "grpc-error-sources-in-external-client", nSources, 12)
 	r.Analysed["c11d_sources"] = nSources
 	// objects handed to the user
 	for _, m := range []struct{ fn, what string }{{"(*" + pkgExtDB + ".db).Create", "File"}, {"(*" + pkgExtDB + ".db).GetReader", "ReadCloser"}} {
@@ -1166,8 +1171,8 @@ func c11Framing(p *Prog, r *Report) {
 			r.Undecided("C11.f", k, "", "not found")
 			continue
 		}
-		info := fi.Pkg.TypesInfo
-		f := p.FlatOf(fi)
+		_ = fi.Pkg.TypesInfo
+		f := p.FlatInl(fi)
 		// header send: a Send whose argument mentions the Header oneof
 		hdr := f.Match(func(n *GNode) bool {
 			for _, c := range callsIn(n.Ast, false) {
@@ -1179,24 +1184,14 @@ func c11Framing(p *Prog, r *Report) {
 			}
 			return false
 		})
-		nw := f.Match(func(n *GNode) bool {
-			for _, c := range callsIn(n.Ast, false) {
-				if p.callIs(fi.Pkg, c, "internal/utils/grpc/streamwriter.New") {
-					if len(c.Args) > 0 {
-						sizes = append(sizes, valueKey(info, c.Args[0]))
-					}
-					return true
-				}
-			}
-			return false
-		})
+		nw := f.NodesMay(p.keysPred("internal/utils/grpc/streamwriter.New"))
 		if len(nw) == 0 || len(hdr) == 0 {
 			r.Viol("C11.f", k+"#header-first", p.pos(fi.Decl), fmt.Sprintf("%d header sends, %d writer constructions: the server expects the header message first", len(hdr), len(nw)))
 			continue
 		}
 		ok := true
 		for _, w := range nw {
-			if !f.MustPrecede(setOf(hdr), w) {
+			if !f.MustPrecedeNil(setOf(hdr), w) {
 				ok = false
 			}
 		}
@@ -1205,6 +1200,19 @@ func c11Framing(p *Prog, r *Report) {
 		for _, s := range f.CallSites() {
 			_ = s
 		}
+	}
+	// every chunk writer the client constructs (wherever in the package)
+	for _, k := range sortedFuncKeys(p) {
+		cf := p.Funcs[k]
+		if shortPath(cf.Pkg.PkgPath) != pkgExtDB || cf.Decl.Body == nil {
+			continue
+		}
+		ast.Inspect(cf.Decl.Body, func(x ast.Node) bool {
+			if c, ok := x.(*ast.CallExpr); ok && p.callIs(cf.Pkg, c, "internal/utils/grpc/streamwriter.New") && len(c.Args) > 0 {
+				sizes = append(sizes, valueKey(cf.Pkg.TypesInfo, c.Args[0]))
+			}
+			return true
+		})
 	}
 	// server buffer
 	if gf := p.Func("(*" + pkgDelivery + ".Service).GetFile"); gf != nil {
@@ -1221,7 +1229,7 @@ func c11Framing(p *Prog, r *Report) {
 			}
 		}
 	}
-	same := len(sizes) >= 3
+	same := len(sizes) >= 2
 	for _, s := range sizes {
 		if s != sizes[0] {
 			same = false
